@@ -126,8 +126,8 @@ func (b *builder) build(name string) (*variant, error) {
 			if err != nil {
 				return nil, fmt.Errorf("instrument: %w", err)
 			}
-			fmt.Fprintf(b.log, "[build] instrumented: %d files, %d yields (A=%d B=%d C=%d), %d sync types replaced, %d cache entry points wrapped\n",
-				rep.Files, rep.Yields, rep.ClassA, rep.ClassB, rep.ClassC, rep.SyncTypes, rep.Wrapped)
+			fmt.Fprintf(b.log, "[build] instrumented: %d files, %d yields (A=%d B=%d C=%d), %d sync types replaced, %d cache entry points wrapped, %d map-ranging loops made quiet\n",
+				rep.Files, rep.Yields, rep.ClassA, rep.ClassB, rep.ClassC, rep.SyncTypes, rep.Wrapped, rep.MapLoops)
 			os.WriteFile(filepath.Join(dir, "sites.json"), rep.SitesJSON, 0o644)
 		}
 		mod := fmt.Sprintf("module vsim\n\ngo 1.23\n\nrequire github.com/goccy/go-json v0.0.0\n\nreplace github.com/goccy/go-json => %s\n", gj)
